@@ -31,6 +31,10 @@ def env_variants(rng, k):
             e["LC_ALL"] = rng.choice(LOCALES)
         if rng.random() < 0.6:
             e.update(rng.choice(JUNK))
+        if rng.random() < 0.35:          # git translates its messages (e.g. the "(HEAD detached at ...)" marker) under a non-C locale with LANGUAGE set
+            e["LANGUAGE"] = rng.choice(["de", "fr", "es", "de:en", "ja", "pt_BR"])
+            e["LC_ALL"] = "C.UTF-8"
+            e["LANG"] = "C.UTF-8"
         out.append(e)
     return out
 
